@@ -371,6 +371,11 @@ bool TimeZoneInfo::ExtendTransitions() {
     leap_year = !leap_year && IsLeap(last_year_ + 1);
   }
 
+  // The transitions of the 401st year are only there to bracket the end of
+  // the 400th, so civil times within that final year (which may be affected
+  // by a transition of the following, ungenerated year) are also mapped back.
+  last_year_ -= 1;
+
   return true;
 }
 
